@@ -5,6 +5,7 @@
 -/
 import Resonate.Driver.Codec
 import Resonate.Generated.Sql
+import Resonate.Proofs.Wf
 open Lean
 namespace Resonate
 
@@ -64,6 +65,9 @@ def handleLine (st : DriverState) (line : String) : DriverState × Json :=
           let (sys', evs) := sys.step ch
           ({ st with sys := some sys' },
            Json.mkObj [("events", toJson (evs.map eventToJson)), ("halted", toJson sys'.halted),
+                       ("wf_violation", toJson (evs.filterMap fun e => match e with
+                          | .dispatch id (.store tx) => if wfTx tx then none else some (id.tid ++ "#" ++ toString id.seq)
+                          | _ => none)),
                        ("threads", toJson (sys'.threads.map (·.tid))), ("apiQ", toJson sys'.apiQ.length)])
     | .ok "batch" =>
       let dialect := (j.getObjValAs? String "dialect").toOption.getD "sqlite"
